@@ -2,7 +2,7 @@
 import ast
 
 from .. import compq, pyq, readerq
-from ..pysrc import dotted, fold, norm
+from ..pysrc import dotted, fold, norm, flat
 from ..readerq import HR
 from .c19 import check as _c19  # noqa: F401  (EOF clauses are decided under C19)
 
@@ -32,7 +32,7 @@ def check(ctx, src):
     ctx.check(split is not None, "FS-COMPILE", f"{compq.CP}|compile_fcomponent|value-then-spec", "the first child is the value, the rest the spec", compq.CP, cf.lineno, detail="root, *rest")
     fs = src.py("hy/models.py").func("FString.__new__")
     ctx.require(fs is not None, "FString.__new__ not found")
-    t = " ".join(ast.unparse(fs).split())
+    t = flat(fs)
     ctx.check("groupby(s, lambda x: isinstance(x, String))" in t and "[reduce(operator.add, components)] if is_string else components" in t, "FS-COMPILE", "hy/models.py|FString.__new__|join", "adjacent String components are no longer joined", "hy/models.py", fs.lineno, detail="groupby + reduce(add)")
     # --- reader: field
     rf = rq.methods["read_fcomponent"][1]
@@ -60,7 +60,7 @@ def check(ctx, src):
               f"FComponent is built with {kw}", HR, rf.lineno, detail="(model, *spec), conversion, expression, is_tstring")
     # --- braces
     rc = rq.methods["read_chars_until"][1]
-    t = " ".join(ast.unparse(rc).split())
+    t = flat(rc)
     ctx.check("if 'r' not in prefix and s[-3:] == ['\\\\', 'N', '{']: in_named_escape = True" in t, "FS-BRACES", f"{HR}|read_chars_until|named escape", "`\\N{` starts a named escape only in non-raw strings", HR, rc.lineno,
               witness='rf"\\N{x}" keeps the text \\N{x} instead of evaluating x', detail="'r' not in prefix and s[-3:] == \\N{")
     ctx.check("elif not self.peek_and_getc('{'): s.pop() break" in t, "FS-BRACES", f"{HR}|read_chars_until|open brace", "`{{` is a literal brace; a single `{` ends the literal chunk and starts a field", HR, rc.lineno, detail="{{ vs {")
